@@ -51,6 +51,26 @@ impl InhibitConnectionPlugin {
     fn inhibit_connection(grammar: &mut Grammar, left: i16, right: i16) {
         grammar.set_connect_cost(left, right, Grammar::INHIBITED_CONNECTION);
     }
+
+    /// Both members of every pair must be inside of the connection matrix
+    fn check_pairs(pairs: &[(i16, i16)], grammar: &Grammar) -> SudachiResult<()> {
+        let conn = grammar.conn_matrix();
+        for (i, (left, right)) in pairs.iter().enumerate() {
+            if *left < 0 || *left as usize >= conn.num_left() {
+                return Err(SudachiError::InvalidDataFormat(
+                    i,
+                    format!("inhibitPair: left id {} is outside of the connection matrix", left),
+                ));
+            }
+            if *right < 0 || *right as usize >= conn.num_right() {
+                return Err(SudachiError::InvalidDataFormat(
+                    i,
+                    format!("inhibitPair: right id {} is outside of the connection matrix", right),
+                ));
+            }
+        }
+        Ok(())
+    }
 }
 
 impl EditConnectionCostPlugin for InhibitConnectionPlugin {
@@ -58,10 +78,11 @@ impl EditConnectionCostPlugin for InhibitConnectionPlugin {
         &mut self,
         settings: &Value,
         _config: &Config,
-        _grammar: &Grammar,
+        grammar: &Grammar,
     ) -> SudachiResult<()> {
         let settings: PluginSettings = serde_json::from_value(settings.clone())?;
         let inhibit_pairs = settings.inhibitPair;
+        Self::check_pairs(&inhibit_pairs, grammar)?;
         self.inhibit_pairs = inhibit_pairs;
         Ok(())
     }
